@@ -10,6 +10,7 @@ def random_breaks(breaks: int, n: int) -> A[i8, 2]:
     ensures(result[0, 0] == 0, result[breaks, 1] == n)
     ensures(forall(0, breaks + 1, lambda i: result[i, 0] < result[i, 1]))
     ensures(forall(0, breaks, lambda i: result[i, 1] == result[i + 1, 0]))
+    ensures(forall(0, breaks + 1, lambda i: 0 <= result[i, 0] and result[i, 1] <= n))
     with before_stmt("indicies[0] = False"):
         lemma_bcount_all(indicies, 0, n + 1)
         I0 = val(indicies)
